@@ -1,6 +1,7 @@
 package wire
 
 import (
+	"github.com/jackc/pgx/v5/pgtype"
 	"context"
 
 	"github.com/jeroenrinzema/psql-wire/pkg/buffer"
@@ -788,4 +789,49 @@ func VerifH07p() {
 	if vEqBytes(p1, p2) && vEqBytes(p3, p1) {
 		vReach("rebound-portal-executed")
 	}
+}
+
+// ---------------------------------------------------------------------------
+// H08t — a Bind parameter's own decoder is the CONNECTION's (C08): the type
+// map handed out through TypeMap(ctx) is the connection's to customise; a
+// session middleware registers a type of the embedder's own on it (object id
+// 100000..100002, text codec). A parameter bound on that connection decodes
+// through Parameter.Scan with that object id to the bytes the client sent —
+// exactly as TypeMap(ctx), in the same callback, knows the type.
+// ---------------------------------------------------------------------------
+func VerifH08t() {
+	custom := uint32(100000 + vChoose(3))
+	val := nondetBytes(2)
+	var got any
+	var scanErr error
+	var known, ran bool
+	mw := SessionMiddleware(func(ctx context.Context) (context.Context, error) {
+		TypeMap(ctx).RegisterType(&pgtype.Type{Name: "verif_type", OID: custom, Codec: pgtype.TextCodec{}})
+		return ctx, nil
+	})
+	stmt := func(ctx context.Context, dw DataWriter, params []Parameter) error {
+		ran = true
+		_, known = TypeMap(ctx).TypeForOID(custom)
+		if len(params) == 1 {
+			got, scanErr = params[0].Scan(custom)
+		}
+		return dw.Complete("T")
+	}
+	parse := func(ctx context.Context, query string) (PreparedStatements, error) {
+		return Prepared(NewStatement(stmt, WithParameters([]oid.Oid{oid.Oid(custom)}))), nil
+	}
+	srv, err := NewServer(parse, MessageBufferSize(64), mw)
+	vAssert("newserver-ok", err == nil)
+	input := vCat(vStartup(vKV([]byte("user"), []byte("u"))),
+		vMsgBytes('P', vCat(vCStr(nil), vCStr([]byte("q $1")), vU16(0))),
+		vMsgBytes('B', vCat(vCStr(nil), vCStr(nil), vU16(0), vU16(1), vU32(uint32(len(val))), val, vU16(0))),
+		vMsgBytes('E', vCat(vCStr(nil), vU32(0))),
+		vMsgBytes('S', nil), vMsgBytes('X', nil))
+	conn := vNewConn(input)
+	srv.serve(context.Background(), conn) //nolint
+	vAssert("statement-ran", ran)
+	vAssert("the-connection's-type-map-knows-the-registered-type", known)
+	sv, isStr := got.(string)
+	vAssert("parameter-decodes-through-the-connection's-own-type", scanErr == nil && isStr && vEqStr(sv, string(val)))
+	vReach("parameter-of-a-type-registered-on-the-connection")
 }
